@@ -53,7 +53,8 @@ metatype::basic *metatype::basic::clone() const
 		errno = EINVAL;
 		return 0;
 	}
-	return create(static_cast<const char *>(vec.iov_base), vec.iov_len);
+	// stored data ends with the terminator added on assignment
+	return create(static_cast<const char *>(vec.iov_base), vec.iov_len ? vec.iov_len - 1 : 0);
 }
 bool metatype::basic::set(const char *src, int len)
 {
